@@ -69,12 +69,15 @@ Example ex_overwrite_check :
   compile (mkOpts false false false) ex_oc_clash = ([mkOut (P "c:/SRC/a.js") [10] 110 false], false).
 Proof. vm_compute. repeat split; reflexivity. Qed.
 
-(* two_outputs_one_path: identical mergeable duplicates are merged without
-   error; different contents or non-mergeable files are an error *)
+(* two_outputs_one_path / dedupe_keeps_exact_path: an identical mergeable case
+   variant is kept (since 11ec04b), an exact duplicate is filtered out;
+   different contents or non-mergeable files are an error *)
 Definition ex_dup (m1 m2 : bool) (c2 : content) := mkOutcome false [] false
   [mkOut (P "/out/d.txt") [5] 105 m1; mkOut (P "/out/x.js") [6] 106 false; mkOut (P "/out/D.txt") c2 105 m2] false false false.
 Example ex_dedupe :
-  compile ex_opts (ex_dup true true [5]) = ([mkOut (P "/out/d.txt") [5] 105 true; mkOut (P "/out/x.js") [6] 106 false], false) /\
+  compile ex_opts (ex_dup true true [5]) = ([mkOut (P "/out/d.txt") [5] 105 true; mkOut (P "/out/x.js") [6] 106 false; mkOut (P "/out/D.txt") [5] 105 true], false) /\
+  fst (compile ex_opts (mkOutcome false [] false [mkOut (P "/out/d.txt") [5] 105 true; mkOut (P "/out/d.txt") [5] 105 true] false false false))
+    = [mkOut (P "/out/d.txt") [5] 105 true] /\
   snd (compile ex_opts (ex_dup true true [9])) = true /\
   snd (compile ex_opts (ex_dup true false [5])) = true.
 Proof. vm_compute. repeat split; reflexivity. Qed.
@@ -117,7 +120,8 @@ Proof. vm_compute. split; reflexivity. Qed.
 Example ex_io_failure :
   let '(st1, r1) := step_io phys_id true ex_opts (init ex_d0) ex_oc1 [P "/out/b.js"] in
   r_errors r1 = true /\ r_failed_early r1 = false /\ r_effects r1 = [EWrite (P "/out/a.js") [10]] /\
-  keys (latest st1) = [P "/out/b.js"; P "/out/a.js"].
+  keys (latest st1) = [P "/out/a.js"] /\
+  keys (latest (fst (step_io_before_b32af0b phys_id true ex_opts (init ex_d0) ex_oc1 [P "/out/b.js"]))) = [P "/out/b.js"; P "/out/a.js"].
 Proof. vm_compute. repeat split; reflexivity. Qed.
 Example ex_io_skipped_path_not_attempted :
   let st1 := fst (step phys_id ex_opts (init ex_d0) ex_oc1) in
@@ -187,15 +191,27 @@ Example ex_kinds_of_outputs :
   entry_out_path (P "/w/out") default_entry_template (P "/w/src") (P "/w/src/a.js") (explicit_custom (P "/w/out") (P "/w/elsewhere/z")) [] (P ".js") = P "/w/out/_.._/elsewhere/z.js".
 Proof. vm_compute. repeat split; reflexivity. Qed.
 
-(* io_deletes_only_own_partial: a history with a failed write followed by a
-   rebuild that deletes the failed path (J2 shape) - the partial statement's
-   third clause takes its right-hand side *)
+(* io_deletes_only_own_partial: a history with a failed write; since b32af0b the
+   failed path is forgotten and the next rebuild does not delete it; before,
+   it did (J2) *)
 Example ex_io_history :
-  let h := trace_io_full phys_id true ex_opts (init ex_d0) [(ex_oc1, [P "/out/b.js"]); (ex_oc2, [])] in
-  map (fun x => r_effects (snd x)) h = [[EWrite (P "/out/a.js") [10]]; [EWrite (P "/out/c.js") [12]; EDelete (P "/out/b.js")]] /\
-  failed_paths (firstn 1 h) = [P "/out/b.js"] /\ written_paths_io (firstn 1 h) = [P "/out/a.js"] /\
+  let h := trace_io_full phys_id true true ex_opts (init ex_d0) [(ex_oc1, [P "/out/b.js"]); (ex_oc2, []); (ex_oc1, [])] in
+  map (fun x => r_effects (snd x)) h =
+    [[EWrite (P "/out/a.js") [10]]; [EWrite (P "/out/c.js") [12]]; [EWrite (P "/out/b.js") [11]; EDelete (P "/out/c.js")]] /\
+  written_paths_io (firstn 2 h) = [P "/out/a.js"; P "/out/c.js"] /\
   reported_paths (firstn 1 h) = [P "/out/a.js"; P "/out/b.js"].
 Proof. vm_compute. repeat split; reflexivity. Qed.
+Example ex_io_history_before_fix :
+  let h := trace_io_full phys_id true false ex_opts (init ex_d0) [(ex_oc1, [P "/out/b.js"]); (ex_oc2, [])] in
+  map (fun x => r_effects (snd x)) h = [[EWrite (P "/out/a.js") [10]]; [EWrite (P "/out/c.js") [12]; EDelete (P "/out/b.js")]] /\
+  failed_paths false (firstn 1 h) = [P "/out/b.js"] /\ written_paths_io (firstn 1 h) = [P "/out/a.js"].
+Proof. vm_compute. repeat split; reflexivity. Qed.
+(* a failed write at a path the context wrote earlier keeps the earlier hash *)
+Example ex_io_keeps_old_hash :
+  let st1 := fst (step phys_id ex_opts (init ex_d0) ex_oc1) in
+  let oc := mkOutcome false [P "/src/a.js"] false [mkOut (P "/out/a.js") [20] 120 false; mkOut (P "/out/b.js") [11] 111 false] false false false in
+  latest (fst (step_io phys_id true ex_opts st1 oc [P "/out/a.js"])) = [(P "/out/a.js", 110); (P "/out/b.js", 111); (P "/out/a.js", 120)].
+Proof. vm_compute. reflexivity. Qed.
 
 (* cancelled_build_writes_nothing: both landing points before the check, from a state with a non-empty table *)
 Example ex_cancel :
